@@ -442,6 +442,21 @@ func genC03(c *Ctx, emit func(class, op string)) {
 			emit("truncated-at-every-position", segOp(append(append([]seg{}, head...), seg{'t', f[:k]})))
 		}
 	}
+	// 0xD3 inside the leader / first message bytes of a valid frame: length byte 0xD3
+	// (payload 211, 467, 723, 979), type 0xD3x, type with low nibble 0xD and next nibble 3
+	for rep := 0; rep < c.N(2, 8); rep++ {
+		for _, n := range []int{211, 467, 723, 979} {
+			emit("d3-in-leader", segOp([]seg{{'f', randFrame(r, n)}, {'j', junkRun(r, 1+r.Intn(5))}, {'f', randFrame(r, 1+r.Intn(20))}}))
+		}
+		for typ := 3376; typ <= 3391; typ++ {
+			emit("d3-in-leader", segOp([]seg{{'j', junkRun(r, 1+r.Intn(5))}, {'f', mkFrame(payloadOfType(r, typ, 2+r.Intn(30)))}, {'f', randFrame(r, 1+r.Intn(20))}}))
+		}
+		for _, typ := range []int{1005, 1021, 1037, 1085, 1117, 13, 4093} {
+			p := payloadOfType(r, typ, 2+r.Intn(30))
+			p[1] = 0xd3
+			emit("d3-in-leader", segOp([]seg{{'f', mkFrame(p)}, {'f', randFrame(r, 1+r.Intn(20))}, {'j', junkRun(r, 1+r.Intn(5))}}))
+		}
+	}
 	// every frame length back to back with a one-byte junk in front
 	for _, n := range lengthsFor(c) {
 		emit("all-lengths", segOp([]seg{{'j', junkRun(r, 1)}, {'f', randFrame(r, n)}, {'f', randFrame(r, 1+r.Intn(20))}}))
